@@ -231,6 +231,71 @@ def history_cases():
     return out
 
 
+def offset_binding_cases():
+    """Many surveys (given as a list, disjoint in time and in time order: not finding D5), every offset with its OWN prior: the k-th
+    further source is governed by the prior declared for dv0_k and reported in the column dv0_k -- also when there are ten or more
+    offsets, where the names no longer sort like the numbers.  K is pinned to ~0 by its prior, so the marginal likelihood has the
+    closed form of the linear model (constant + survey indicators)."""
+    import warnings
+
+    import astropy.units as u
+    import pymc as pm
+    import thejoker.units as xu
+    from astropy.time import Time
+    from thejoker.data import RVData
+    from thejoker.prior import JokerPrior
+    from thejoker.thejoker import TheJoker
+
+    kms = u.km / u.s
+    out = []
+    for n_off in (2, 11):
+        off_true = np.array([0.0] + [5.0 * k * (-1) ** k for k in range(1, n_off + 1)])
+        sig = 0.0625
+        datas = []
+        for k in range(n_off + 1):
+            t = 58000.0 + 16.0 * k + np.array([0.0, 1.25, 2.875])
+            rv = 3.0 + off_true[k] + np.array([0.015625, -0.03125, 0.0078125])
+            datas.append(RVData(Time(t, format="mjd", scale="tcb"), rv * kms, np.full(3, sig) * kms))
+        prior_mu = off_true[1:] + 0.5
+        prior_sd = 1.0 + 0.125 * np.arange(n_off)
+        case = dict(family="offset_binding", n_off=n_off)
+        with warnings.catch_warnings():
+            warnings.simplefilter("ignore")
+            try:
+                with pm.Model():
+                    offs = [xu.with_unit(pm.Normal(f"dv0_{k}", prior_mu[k - 1], prior_sd[k - 1]), kms) for k in range(1, n_off + 1)]
+                    prior = JokerPrior.default(P_min=2 * u.day, P_max=50 * u.day, sigma_K0=1e-4 * kms, sigma_v=50.0 * kms, s=0 * kms, v0_offsets=offs)
+                smp = prior.sample(size=6, rng=np.random.default_rng(7))
+                joker = TheJoker(prior, rng=np.random.default_rng(42))
+                ll = np.asarray(joker.marginal_ln_likelihood(datas, smp, in_memory=True), float)
+                post = joker.rejection_sample(datas, smp, in_memory=True, n_linear_samples=48)
+            except Exception as e:
+                out.append((case, f"{n_off} offsets: raised {type(e).__name__}: {str(e)[:200]}"))
+                continue
+        want_names = [f"dv0_{k}" for k in range(1, n_off + 1)]
+        if [nm for nm in prior.par_names if nm.startswith("dv0_")] != want_names:
+            out.append((case, f"{n_off} offsets: the prior lists the offsets as {[nm for nm in prior.par_names if nm.startswith('dv0_')]}, declared as {want_names}"))
+        rv_all = np.concatenate([d.rv.to_value(kms) for d in datas])
+        n = len(rv_all)
+        M = np.zeros((n, 1 + n_off))
+        M[:, 0] = 1.0
+        for k in range(1, n_off + 1):
+            M[3 * k: 3 * k + 3, k] = 1.0
+        mu = np.concatenate([[0.0], prior_mu])
+        Lam = np.diag(np.concatenate([[50.0**2], prior_sd**2]))
+        B = sig**2 * np.eye(n) + M @ Lam @ M.T
+        r = rv_all - M @ mu
+        ll_ref = -0.5 * (r @ np.linalg.solve(B, r) + np.linalg.slogdet(2 * np.pi * B)[1])
+        if not np.allclose(ll, ll_ref, rtol=0, atol=1e-2):
+            out.append((case, f"{n_off} offsets, each with its own prior: marginal ln-likelihood {ll[0]:.6g} but the model in which source k is governed by the prior of dv0_k gives {ll_ref:.6g}"))
+        for k in range(1, n_off + 1):
+            got = float(np.mean(post[f"dv0_{k}"].to_value(kms))) if f"dv0_{k}" in post.par_names else float("nan")
+            if not abs(got - off_true[k]) < 0.5:
+                out.append((case, f"{n_off} offsets: posterior column dv0_{k} has mean {got:.3g} km/s but source number {k} is offset by {off_true[k]:.3g} km/s"))
+                break
+    return out
+
+
 def mcmc_offset_cases():
     """The MCMC model setup_mcmc builds from multi-survey data given as a list, a dict of named surveys and a dict with integer labels
     that are not 0..n: raising the first offset by 5 (data units) moves the model velocities of exactly the second survey's epochs by 5."""
@@ -350,11 +415,14 @@ def run(ctx):
     for case, msg in mcmc_offset_cases():
         ctx.fail("predicate", "C08:mcmc-offsets", msg, case=case)
     n_eval += 3
+    for case, msg in offset_binding_cases():
+        ctx.fail("predicate", "C08:offset-binding", msg, case=case)
+    n_eval += 2
     ctx.coverage.update(evaluations=n_eval, distinct_nontrivial=nt)
     return ctx.finish(
         rule="2..5 surveys of 1..8 epochs; layouts disjoint / interleaved / identical epochs / reversed / random; list, int-keyed dict and "
         "string-keyed dict in arbitrary key order; second and later sources optionally in m/s; poly_trend 1..3; plus the 4x4 grid of "
-        "(number of sources, number of offset priors); 3 two-call histories on one TheJoker (the same observations divided between the surveys differently, then the data proper); the offset response of the MCMC model for list / named-dict / integer-label-dict input. Non-trivial = surveys overlap in time",
+        "(number of sources, number of offset priors); 3 two-call histories on one TheJoker (the same observations divided between the surveys differently, then the data proper); the offset response of the MCMC model for list / named-dict / integer-label-dict input; 3 and 12 surveys with a different prior per offset (closed-form likelihood, posterior column per source). Non-trivial = surveys overlap in time",
         assumptions=["astropy unit conversion of later sources into the first source's unit is trusted (the converted values are the model's inputs)",
                      "numpy.unique orders labels ascending (ints numerically, strings by code point)"],
     )
@@ -364,7 +432,7 @@ def replay(ctx, path):
     payload = json.load(open(path))
     ctx.make_overlay(need_kernel=True)
     case = payload.get("case")
-    if case is None or case.get("family") in ("arity", "history", "mcmc_offsets"):
+    if case is None or case.get("family") in ("arity", "history", "mcmc_offsets", "offset_binding"):
         return run(ctx)
     ctx.regen_all()
     if ctx.build_models(MODELS):
